@@ -74,7 +74,7 @@ CHECKS = {
              "conjunctions; no member is both inferable and inverse-inferable (so non-inferable is always empty); an assumption is tested from its first verification on, valid only "
              "after a verification returned true, and verify returns the function's verdict. The member predicates (total_cmp, truncating 4-decimal comparison, >=, ==) are modelled "
              "on binary64 with SpecFloat and correspondence-tested on boundary values; the oracle recomputes every aggregate from the member predicates the implementation reports.",
-        note=LEVEL_NOTE_COMMON + "Axioms: none. binary64 via Coq.Floats.SpecFloat (pure Z arithmetic); NaN payloads not represented. '= 100 when all satisfy' is a bounded evaluation (<= 200 members), not a theorem.",
+        note=LEVEL_NOTE_COMMON + "Axioms: none for all theorems but two: C18_all_satisfy_gives_exactly_100 / C18_none_satisfies_gives_exactly_0 (percentage exactly 100 / 0 for every collection of 1..2^64 members) use Flocq's specification of IEEE division and depend on the standard library's classical real-number axioms ClassicalDedekindReals.sig_not_dec, ClassicalDedekindReals.sig_forall_dec, FunctionalExtensionality.functional_extensionality_dep, Classical_Prop.classic (Print Assumptions; allow-list of this check). binary64 via Coq.Floats.SpecFloat (pure Z arithmetic); NaN payloads not represented.",
         technique="Coq proof (list-level counting laws, induction over verification histories) + differential correspondence on boundary floats + law checker as oracle",
         design="§7 C18"),
     "C01": dict(
